@@ -468,6 +468,7 @@ func TestVerifC02(t *testing.T) {
 				p.name, p.drop, p.dup, p.reorder = "heavy-loss", 40, 20, 50
 			case 3:
 				p.name, p.stall, p.reorder, p.dup = "stall+stale-acks", 100, 60, 30
+				p.growWnd = i%8 == 3
 			}
 			return p
 		},
@@ -501,6 +502,10 @@ func runStallCase(lg *vlog, rep *vreport, rng *vrng) {
 	pauseFrom, pauseLen := rng.intn(30), 10+rng.intn(200)
 	lossFrom, lossLen := pauseFrom+rng.intn(pauseLen), rng.intn(150)
 	useUpdate := rng.chance(30)
+	growAt := -1
+	if rng.chance(35) {
+		growAt = pauseFrom + pauseLen/2 + rng.intn(pauseLen/2+1)
+	}
 	longStall := rng.chance(25)
 	if longStall {
 		s.stats["long-stall-cases"]++
@@ -558,6 +563,12 @@ func runStallCase(lg *vlog, rep *vreport, rng *vrng) {
 					s.stats["fate-dup"]++
 				}
 			}
+		}
+		// the receiving application enlarges its window while stalled (growth only: shrinking can
+		// legitimately strand a message larger than the window, boundary B8)
+		if growAt == tick {
+			s.WndSize(1, 0, 2*int(s.k[1].rcv_wnd)+rng.intn(8))
+			s.stats["stall-window-grown"]++
 		}
 		paused := tick >= pauseFrom && tick < pauseFrom+pauseLen
 		if !paused {
